@@ -39,7 +39,18 @@ Forms1 ==
          [e |-> Bin("+", Asg("x", Num(1)), Bin("*", Asg("x", Bin("+", Id("x"), Num(1))), Id("x"))), c |-> "asg-in-expr"],
          [e |-> Idx(Id("A"), Asg("x", Num(1))), c |-> "asg-in-index"],
          [e |-> IAsg(Id("A"), Id("x"), Asg("x", Num(1))), c |-> "iasg-value-after-index"],
-         [e |-> Call(Id("g"), <<Asg("x", Num(1)), Asg("x", Num(2)), Id("x")>>), c |-> "asg-in-args"] }
+         [e |-> Call(Id("g"), <<Asg("x", Num(1)), Asg("x", Num(2)), Id("x")>>), c |-> "asg-in-args"],
+         [e |-> Idx(Pr(1, Num(5)), Pr(2, Num(0))), c |-> "err:idx-non-array"],            \* both operands are evaluated, then the error
+         [e |-> Idx(Pr(1, Id("A")), Pr(2, Lit(S("k")))), c |-> "err:idx-bad-index"],
+         [e |-> IAsg(Pr(1, Num(5)), Pr(2, Num(0)), Pr(3, Num(9))), c |-> "err:iasg-non-array"],
+         [e |-> IAsg(Pr(1, Id("A")), Pr(2, Num(7)), Pr(3, Num(9))), c |-> "err:iasg-range"],
+         [e |-> Bin("-", Pr(1, Lit(VNil)), Pr(2, Num(3))), c |-> "err:bin-left"], [e |-> Bin("-", Pr(1, Num(3)), Pr(2, Lit(VNil))), c |-> "err:bin-right"],
+         [e |-> Bin("/", Pr(1, Num(3)), Pr(2, Num(0))), c |-> "err:zero"], [e |-> Bin("<<", Pr(1, Lit(D("0.5"))), Pr(2, Num(1))), c |-> "err:bitwise"],
+         [e |-> Prop(Pr(1, Num(5)), "k"), c |-> "err:prop-non-object"], [e |-> Prop(Pr(1, Id("O")), "nope"), c |-> "err:prop-missing"],
+         [e |-> Call(Pr(0, Num(5)), <<Pr(1, Num(1))>>), c |-> "err:callee"], [e |-> Call(Pr(0, Id("g")), <<Pr(1, Num(1))>>), c |-> "err:arity"],
+         [e |-> Call(Id("len"), <<Pr(1, Num(1))>>), c |-> "err:native"], [e |-> Call(Id("push"), <<Pr(1, Id("A")), Pr(2, Num(1)), Pr(3, Num(2))>>), c |-> "native-args"],
+         [e |-> Arr(<<Pr(1, Num(1)), Bin("/", Pr(2, Num(1)), Pr(3, Num(0))), Pr(4, Num(4))>>), c |-> "err:in-array"],
+         [e |-> Un("-", Pr(1, Lit(S("x")))), c |-> "err:unary"] }
 
 (* depth 2: two-hole forms whose holes are themselves one-level forms over probes *)
 Inner == { [e |-> Bin("+", Pr(1, Num(1)), Pr(2, Num(2))), n |-> 2], [e |-> Arr(<<Pr(1, Num(1)), Pr(2, Num(2))>>), n |-> 2],
